@@ -510,7 +510,6 @@ pub fn encode_with_fixed_block_size<T: Source>(
         })
         .collect();
 
-    let src_len_hint = src.len_hint();
     let mut context = ParContext::new(Context::new(src.bits_per_sample(), src.channels()));
     let feed_result = feed_fixed_block_size(src, block_size, worker_count, &parbuf, &mut context)
         .map(|(stats, _)| stats);
@@ -569,9 +568,11 @@ pub fn encode_with_fixed_block_size<T: Source>(
         stream.stream_info_mut().set_frame_sizes(0, 0).unwrap();
     }
 
+    // The number of samples actually consumed, not `src.len_hint()`: a hint may
+    // disagree with what was delivered (e.g. a partially read `MemSource`).
     stream
         .stream_info_mut()
-        .set_total_samples(src_len_hint.unwrap_or_else(|| context.total_samples()));
+        .set_total_samples(context.total_samples());
 
     Ok(stream)
 }
